@@ -193,6 +193,7 @@ pub struct Model {
     pub intro: BTreeMap<aldrin_core::TypeId, MIntro>,
     pub intro_queries: BTreeMap<u32, aldrin_core::TypeId>,
     pub seen_cookies: BTreeSet<Uuid>,
+    pub seen_callee_serials: BTreeSet<u32>,
     pub shutdown_idle: bool,
     pub shutdown_now: bool,
     /// Gauge deltas that are known findings (S2) are tracked so that later steps stay comparable.
